@@ -68,12 +68,9 @@ def ellipsoid_position(B, sc, n0, side, U, fn):
     else:
         ref = [z3.And(a.c == 1, a.s == 0) for a in sc.q0[:3]]
     B.prove_eq("%s: reference configuration q=0: p_FM == (0,0,rz)" % L, p, Vec(0, 0, semi[2]), side + ref, U, fn)
-    # F13 (reported): the implemented point p = diag(radii)*Mz is on the surface but its surface normal diag(1/radii^2)*p is NOT parallel to Mz unless the
-    # radii are equal or Mz is a principal axis, contrary to the documentation. Generated only once registered in known_findings.json.
-    if any(k.get("property") == PID and "Ellipsoid" in k.get("obligation", "") for k in B.ctx.known):
-        n = M.vals(n0.X_FM.R()).col(2)
-        g = Vec(p[0] / (semi[0] * semi[0]), p[1] / (semi[1] * semi[1]), p[2] / (semi[2] * semi[2]))
-        B.prove_eq("%s: surface normal at the M origin is aligned with Mz (grad x Mz == 0)" % L, S.cross(g, n), Vec(0, 0, 0), side + nz, U + ".normal", fn)
+    # NOT claimed: the class comment of RigidBodyNodeSpec_Ellipsoid.h (not the public documentation) also says the surface normal at the M origin is aligned
+    # with Mz; the implemented point p = diag(radii)*Mz is on the surface but its normal diag(1/radii^2)*p is parallel to Mz only for equal radii or principal
+    # directions. Recorded as an observation in DESIGN.md (9.3), not as an obligation.
 
 
 def position(B, sc, side, U, cls):
@@ -203,13 +200,7 @@ def main(ctx):
             n0 = position(B, sc, side, U, cls)
             s = z3.Solver(); s.add(*side)
             ctx.add(Obligation("guard:%s side conditions satisfiable" % key, "guards", "z3", "discharged" if s.check() == z3.sat else "undecided", 0, "reachability guard"))
-            if name == "SphericalCoords":
-                # F12 (reported): setUToFit*/setQToFitTranslation of RBNodeSphericalCoords use the ROW R_FM[axisT] where the column R_FM(axisT) (Mx/Mz in F) is meant
-                # and ignore the negation flags; a representable velocity/pose is not reproduced even in the default convention (native witness: c05_replay
-                # SphericalCoords Mz+++ 0 0 checks=UF). The obligations are generated only once the finding is registered in known_findings.json.
-                if any(k.get("property") == PID and "SphericalCoords" in k.get("obligation", "") for k in ctx.known):
-                    ufit(B, sc, n0, side, U + ".ufit", cls)
-            elif name != "Ellipsoid":
+            if name != "Ellipsoid":
                 ufit(B, sc, n0, side, U, cls)
         except ExtractionError as e:
             ctx.undecide("%s: %s" % (key, e))
@@ -244,8 +235,8 @@ def main(ctx):
                         "setQToFitRotation of Universal and SphericalCoords (two-angle extraction: sqrt-averaged estimates, goals time out as in C27), Screw (angle vs p/pitch), Ellipsoid fits",
                         "fits to NON-representable targets (documented 'closest' element), angle extraction inside the tolerance band around gimbal lock, quaternion q-fits in the quick tier",
                         "Screw with pitch == 0: setQToFitTranslation/setUToFitLinearVelocity divide by the pitch (0/0); the round trip is proved for pitch != 0 only",
-                        "SphericalCoords setUToFitVelocity/setQToFitTransform: GENUINE DEFECT found and reported (row R_FM[axisT] used for the column R_FM(axisT); sign flags ignored) - obligations generated only when registered as a known finding",
-                        "Ellipsoid 'surface normal at the M origin is aligned with Mz': DOC/CODE DISCREPANCY found and reported (implemented point diag(radii)*Mz lies on the surface but the normal there is not Mz for unequal radii) - obligation generated only when registered as a known finding",
+                        "SphericalCoords setQToFitTranslation (q-fit): fixed in the tree together with the u-fits (finding F15) but only the u-fit round trip is under obligation (the q-fit needs the two-angle extraction)",
+                        "Ellipsoid 'surface normal at the M origin is aligned with Mz' (implementation class comment only, not the public documentation): does not hold for unequal radii; observation, not claimed",
                         "Ellipsoid setQToFitTranslation/setUToFitLinearVelocity are documented direction-only approximations (exact for a sphere): representable poses are not reproduced for unequal radii (observed natively, not claimed)",
                         "reversed fits (setQToFitTransform/setUToFitVelocity wrappers of RigidBodyNode.h)", "float rounding; |quat| = 0"]
     ctx.explanation = "%d functions transliterated; %d obligations over %d mobilizer scenarios." % (len(ctx.functions), len(ctx.obligations), len(SCENARIOS))
